@@ -574,4 +574,554 @@ theorem check_association_eq (w : World) (rel : Option String) :
   simp [assocTerm, specAt, List.getD]
   split <;> rename_i h1 <;> simp [h1]
 
+/-! ### check_uniqueness_constraint -/
+
+def Frame (A : List String) (L0 L : Locals) : Prop := ∀ x, x ∉ A → L.lookup x = L0.lookup x
+
+theorem Frame.refl (A : List String) (L : Locals) : Frame A L L := fun _ _ => rfl
+
+theorem Frame.push {A : List String} {L0 L : Locals} {a : String} (v : V) (h : a ∈ A) (f : Frame A L0 L) :
+    Frame A L0 ((a, v) :: L) := by
+  intro x hx
+  have : (x == a) = false := by
+    simp only [beq_eq_false_iff_ne, ne_eq]
+    intro e; subst e; exact hx h
+  simp only [List.lookup, this]
+  exact f x hx
+
+theorem Frame.trans {A : List String} {L0 L1 L2 : Locals} (f : Frame A L0 L1) (g : Frame A L1 L2) : Frame A L0 L2 :=
+  fun x hx => (g x hx).trans (f x hx)
+
+theorem Frame.mono {A B : List String} {L0 L : Locals} (h : ∀ x ∈ A, x ∈ B) (f : Frame A L0 L) : Frame B L0 L :=
+  fun x hx => f x (fun hA => hx (h x hA))
+
+theorem forLoop_fold {σ : Type} (Abs : σ → Locals → Prop) (step : List V → σ → σ)
+    (body : List V → Locals → Option (Locals × Sig)) :
+    ∀ (l : List (List V)), (∀ r ∈ l, ∀ s L, Abs s L →
+        ∃ L', (body r L = some (L', .next) ∨ body r L = some (L', .cont)) ∧ Abs (step r s) L') →
+    ∀ s L, Abs s L → ∃ L', forLoop body l L = some (L', .next) ∧ Abs (l.foldl (fun s r => step r s) s) L'
+  | [], _, s, L, hi => ⟨L, rfl, hi⟩
+  | r :: rest, h, s, L, hi => by
+    obtain ⟨L1, h1, hi1⟩ := h r (List.mem_cons_self ..) s L hi
+    obtain ⟨L2, h2, hi2⟩ := forLoop_fold Abs step body rest (fun x hx => h x (List.mem_cons_of_mem _ hx)) _ L1 hi1
+    refine ⟨L2, ?_, hi2⟩
+    rcases h1 with h1 | h1 <;> simp only [forLoop, h1, h2]
+
+def A1 : List String :=
+  ["name", "ty", "value", "isnull", "identifier", "kwargs", "index_key", "id_string", "res", "id_map"]
+
+def kwV : List (String × Option Int) → V
+  | [] => .emptyDict
+  | log => .dict log
+
+def uniqBodyInst : List Stmt :=
+  match check_uniqueness_constraint.body with
+  | [_, _, .forIn _ _ [_, _, _, .forIn _ _ b], _] => b
+  | _ => []
+
+def identBody : List Stmt :=
+  match uniqBodyInst with
+  | [_, .forIn _ _ b] => b
+  | _ => []
+
+def kwBody : List Stmt :=
+  match identBody with
+  | [_, .forIn _ _ b, _, _, _] => b
+  | _ => []
+
+def A0 : List String := ["name", "kwargs"]
+
+theorem kw_body (w : World) (x : Inst) (L0 : Locals) (h0 : L0.lookup "inst" = some (.inst x)) (a : String)
+    (log : List (String × Option Int)) (L : Locals) (hi : Frame A0 L0 L ∧ L.lookup "kwargs" = some (kwV log)) :
+    ∃ L', ((match bindRow ["name"] [V.str a] L with
+        | some L'' => iStmts w (oracle w) L'' kwBody
+        | none => none) = some (L', .next) ∨ False) ∧
+      (Frame A0 L0 L' ∧ L'.lookup "kwargs" = some (kwV (log ++ [(a, w.val x a)]))) := by
+  have hinst : L.lookup "inst" = some (.inst x) := (hi.1 "inst" (by decide)).trans h0
+  simp only [kwBody, identBody, uniqBodyInst, check_uniqueness_constraint]
+  cases log with
+  | nil =>
+    cshape [hinst, hi.2, kwV]
+    exact ⟨_, Or.inl rfl, Frame.push _ (by decide) (Frame.push _ (by decide) hi.1), by simp [List.lookup, kwV]⟩
+  | cons p rest =>
+    cshape [hinst, hi.2, kwV]
+    exact ⟨_, Or.inl rfl, Frame.push _ (by decide) (Frame.push _ (by decide) hi.1), by simp [List.lookup, kwV]⟩
+
+theorem kw_loop (w : World) (x : Inst) (L0 : Locals) (h0 : L0.lookup "inst" = some (.inst x)) (attrs : List String)
+    (L : Locals) (hi : Frame A0 L0 L ∧ L.lookup "kwargs" = some (kwV [])) :
+    ∃ L', forLoop (fun r L' => match bindRow ["name"] r L' with
+        | some L'' => iStmts w (oracle w) L'' kwBody
+        | none => none) (attrs.map (fun a => [V.str a])) L = some (L', .next) ∧
+      Frame A0 L0 L' ∧ L'.lookup "kwargs" = some (kwV (attrs.map (fun a => (a, w.val x a)))) := by
+  obtain ⟨L', hrun, hinv⟩ := forLoop_fold (fun log L => Frame A0 L0 L ∧ L.lookup "kwargs" = some (kwV log))
+    (fun r log => match r with | [.str a] => log ++ [(a, w.val x a)] | _ => log)
+    (fun r L' => match bindRow ["name"] r L' with
+        | some L'' => iStmts w (oracle w) L'' kwBody
+        | none => none) (attrs.map (fun a => [V.str a]))
+    (by
+      intro r hr log L hi
+      obtain ⟨a, _, rfl⟩ := List.mem_map.mp hr
+      obtain ⟨L', h, hi'⟩ := kw_body w x L0 h0 a log L hi
+      exact ⟨L', Or.inl (h.resolve_right id), hi'⟩) [] L hi
+  refine ⟨L', hrun, ?_⟩
+  have hf : ∀ (l : List String) (log : List (String × Option Int)),
+      (l.map (fun a => [V.str a])).foldl (fun s r => match r with | [.str a] => s ++ [(a, w.val x a)] | _ => s) log =
+        log ++ l.map (fun a => (a, w.val x a)) := by
+    intro l
+    induction l with
+    | nil => intro log; simp
+    | cons a rest ih => intro log; simp only [List.map_cons, List.foldl_cons, ih, List.append_assoc, List.cons_append, List.nil_append]
+  rw [hf] at hinv
+  simpa using hinv
+
+theorem lookup_map_self {β : Type} (f : String → β) : ∀ (l : List String) (a : String), a ∈ l →
+    (l.map (fun a => (a, f a))).lookup a = some (f a)
+  | [], _, h => by cases h
+  | b :: rest, a, h => by
+    simp only [List.map_cons, List.lookup]
+    by_cases e : a = b
+    · subst e; simp
+    · have : (a == b) = false := by simp [e]
+      simp only [this]
+      exact lookup_map_self f rest a (by cases h with | head => exact absurd rfl e | tail _ h' => exact h')
+
+theorem itemsOf_map (val : Inst → String → Option Int) (x : Inst) (attrs : List String) :
+    itemsOf (attrs.map (fun a => (a, val x a))) = identKey val x attrs := by
+  unfold itemsOf identKey
+  simp only [List.map_map, Function.comp_def, List.map_id']
+  apply List.map_congr_left
+  intro a ha
+  have hm : a ∈ attrs.reverse := List.mem_reverse.mpr (List.mem_eraseDups.mp ha)
+  rw [← List.map_reverse, lookup_map_self (val x) attrs.reverse a hm]
+  rfl
+
+theorem lookup_nodup {β : Type} : ∀ (l : List (String × β)) (p : String × β), (l.map (·.1)).Nodup → p ∈ l →
+    l.lookup p.1 = some p.2
+  | [], _, _, h => by cases h
+  | q :: rest, p, hnd, h => by
+    simp only [List.map_cons, List.nodup_cons] at hnd
+    cases h with
+    | head => simp [List.lookup]
+    | tail _ h' =>
+      have hne : (p.1 == q.1) = false := by
+        simp only [beq_eq_false_iff_ne, ne_eq]
+        intro e
+        exact hnd.1 (e ▸ List.mem_map_of_mem h')
+      simp only [List.lookup, hne]
+      exact lookup_nodup rest p hnd.2 h'
+
+/-- one identifier of one instance: the step of the model's `uniqStep` fold -/
+def imV (inits : List String) (seen : List (String × Key)) : V :=
+  match inits with
+  | [] => .emptyDict
+  | _ => .idmap inits seen
+
+def uStepFn (val : Inst → String → Option Int) (x : Inst) (acc : Nat × List (String × Key)) (idn : String × List String) :
+    Nat × List (String × Key) :=
+  ((if acc.2.contains (idn.1, identKey val x idn.2) then acc.1 + 1 else acc.1), (idn.1, identKey val x idn.2) :: acc.2)
+
+theorem ident_body (w : World) (k : Kind) (ci : ClassInfo) (hk : w.classes[k]? = some ci) (hnd : (ci.idents.map (·.1)).Nodup)
+    (x : Inst) (L0 : Locals) (h0 : L0.lookup "inst" = some (.inst x)) (hm : L0.lookup "metaclass" = some (.cls k))
+    (idn : String × List String) (hidn : idn ∈ ci.idents) (s : Nat × List (String × Key)) (L : Locals)
+    (hi : Frame A1 L0 L ∧ L.lookup "res" = some (.nat s.1) ∧ L.lookup "id_map" = some (imV (ci.idents.map (·.1)) s.2)) :
+    ∃ L', ((match bindRow ["identifier"] [V.str idn.1] L with
+        | some L'' => iStmts w (oracle w) L'' identBody
+        | none => none) = some (L', .next) ∨ False) ∧
+      (Frame A1 L0 L' ∧ L'.lookup "res" = some (.nat (uStepFn w.val x s idn).1) ∧
+        L'.lookup "id_map" = some (imV (ci.idents.map (·.1)) (uStepFn w.val x s idn).2)) := by
+  have himv : ∀ sn, imV (ci.idents.map (·.1)) sn = .idmap (ci.idents.map (·.1)) sn := by
+    intro sn
+    cases hl : ci.idents.map (·.1) with
+    | nil => have := List.mem_map_of_mem (f := (·.1)) hidn; rw [hl] at this; cases this
+    | cons q r => rfl
+  simp only [himv] at hi ⊢
+  have hmc : L.lookup "metaclass" = some (.cls k) := (hi.1 "metaclass" (by decide)).trans hm
+  have hlk : ci.idents.lookup idn.1 = some idn.2 := lookup_nodup ci.idents idn hnd hidn
+  have hin : (ci.idents.map (·.1)).contains idn.1 = true := by
+    simp only [List.contains_iff_mem]; exact List.mem_map_of_mem hidn
+  have hinst : L.lookup "inst" = some (.inst x) := (hi.1 "inst" (by decide)).trans h0
+  obtain ⟨L1, hrun, hf1, hkw⟩ := kw_loop w x (("kwargs", .emptyDict) :: ("identifier", .str idn.1) :: L)
+    (by simp only [List.lookup, String.reduceBEq]; exact hinst) idn.2
+    (("kwargs", .emptyDict) :: ("identifier", .str idn.1) :: L)
+    ⟨Frame.refl _ _, by simp [List.lookup, kwV]⟩
+  simp only [kwBody, identBody, uniqBodyInst, check_uniqueness_constraint] at hrun
+  simp only [identBody, uniqBodyInst, check_uniqueness_constraint, bindRow]
+  rw [iStmts_step (L' := ("kwargs", .emptyDict) :: ("identifier", .str idn.1) :: L) (by cshape [])]
+  rw [iStmts_for (rows := idn.2.map (fun a => [V.str a])) (by cshape [hmc, hk, hlk]) hrun]
+  have hid1 : L1.lookup "identifier" = some (.str idn.1) := by
+    rw [hf1 "identifier" (by decide)]; simp [List.lookup]
+  have hres1 : L1.lookup "res" = some (.nat s.1) := by
+    rw [hf1 "res" (by decide)]; simp only [List.lookup, String.reduceBEq]; exact hi.2.1
+  have him1 : L1.lookup "id_map" = some (.idmap (ci.idents.map (·.1)) s.2) := by
+    rw [hf1 "id_map" (by decide)]; simp only [List.lookup, String.reduceBEq]; exact hi.2.2
+  have hin1 : L1.lookup "inst" = some (.inst x) := by
+    rw [hf1 "inst" (by decide)]; simp only [List.lookup, String.reduceBEq]; exact hinst
+  have hfr1 : Frame A1 L0 L1 :=
+    Frame.trans (Frame.push _ (by decide) (Frame.push _ (by decide) hi.1)) (Frame.mono (by decide) hf1)
+  have hkey : evalE w (oracle w) L1 (.frozensetItems "kwargs") = some (.key (identKey w.val x idn.2)) := by
+    rw [← itemsOf_map]
+    cases hl : idn.2.map (fun a => (a, w.val x a)) with
+    | nil => rw [hl] at hkw; simp only [evalE, hkw, kwV]; rfl
+    | cons q r => rw [hl] at hkw; simp only [evalE, hkw, kwV]
+  rw [iStmts_step (L' := ("index_key", .key (identKey w.val x idn.2)) :: L1) (by simp only [iStmt, hkey])]
+  by_cases hc : s.2.contains (idn.1, identKey w.val x idn.2) = true
+  · cshape [hid1, hres1, him1, hin1, hin, hc, uStepFn]
+    refine ⟨_, Or.inl rfl, ?_, by simp [List.lookup], by simp [List.lookup]⟩
+    exact Frame.push _ (by decide) (Frame.push _ (by decide) (Frame.push _ (by decide) (Frame.push _ (by decide) hfr1)))
+  · have hc' := Bool.eq_false_iff.mpr hc
+    cshape [hid1, hres1, him1, hin1, hin, hc', uStepFn, Bool.false_eq_true]
+    refine ⟨_, Or.inl rfl, ?_, by simp only [List.lookup, String.reduceBEq]; exact hres1, by simp [List.lookup]⟩
+    exact Frame.push _ (by decide) (Frame.push _ (by decide) hfr1)
+
+theorem uStep_shift (val : Inst → String → Option Int) (x : Inst) : ∀ (l : List (String × List String)) (r : Nat)
+    (seen : List (String × Key)),
+    l.foldl (uStepFn val x) (r, seen) = (r + (l.foldl (uStepFn val x) (0, seen)).1, (l.foldl (uStepFn val x) (0, seen)).2)
+  | [], r, seen => by simp
+  | idn :: rest, r, seen => by
+    simp only [List.foldl_cons, uStepFn]
+    by_cases hc : seen.contains (idn.1, identKey val x idn.2) = true
+    · simp only [hc, if_true]
+      rw [uStep_shift val x rest (r + 1), uStep_shift val x rest (0 + 1)]
+      simp only [Prod.mk.injEq, and_true]
+      omega
+    · simp only [hc, if_false]
+      exact uStep_shift val x rest r _
+
+theorem uniqStep_fold (ci : ClassInfo) (val : Inst → String → Option Int) (x : Inst) (seen : List (String × Key)) :
+    uniqStep ci val x seen = ci.idents.foldl (uStepFn val x) (0, seen) := rfl
+
+theorem ident_loop (w : World) (k : Kind) (ci : ClassInfo) (hk : w.classes[k]? = some ci) (hnd : (ci.idents.map (·.1)).Nodup)
+    (x : Inst) (L0 : Locals) (h0 : L0.lookup "inst" = some (.inst x)) (hm : L0.lookup "metaclass" = some (.cls k))
+    (s : Nat × List (String × Key)) (L : Locals)
+    (hi : Frame A1 L0 L ∧ L.lookup "res" = some (.nat s.1) ∧ L.lookup "id_map" = some (imV (ci.idents.map (·.1)) s.2)) :
+    ∃ L', forLoop (fun r L' => match bindRow ["identifier"] r L' with
+        | some L'' => iStmts w (oracle w) L'' identBody
+        | none => none) (ci.idents.map (fun p => [V.str p.1])) L = some (L', .next) ∧
+      Frame A1 L0 L' ∧ L'.lookup "res" = some (.nat (s.1 + (uniqStep ci w.val x s.2).1)) ∧
+        L'.lookup "id_map" = some (imV (ci.idents.map (·.1)) (uniqStep ci w.val x s.2).2) := by
+  obtain ⟨L', hrun, hinv⟩ := forLoop_fold
+    (fun (s : Nat × List (String × Key)) L => Frame A1 L0 L ∧ L.lookup "res" = some (.nat s.1) ∧
+      L.lookup "id_map" = some (imV (ci.idents.map (·.1)) s.2))
+    (fun r s => match r with
+      | [.str n] => (match ci.idents.lookup n with | some as => uStepFn w.val x s (n, as) | none => s)
+      | _ => s)
+    (fun r L' => match bindRow ["identifier"] r L' with
+        | some L'' => iStmts w (oracle w) L'' identBody
+        | none => none) (ci.idents.map (fun p => [V.str p.1]))
+    (by
+      intro r hr s L hi
+      obtain ⟨idn, hidn, rfl⟩ := List.mem_map.mp hr
+      obtain ⟨L', h, hi'⟩ := ident_body w k ci hk hnd x L0 h0 hm idn hidn s L hi
+      refine ⟨L', Or.inl (h.resolve_right id), ?_⟩
+      simp only [lookup_nodup ci.idents idn hnd hidn]
+      exact hi') s L hi
+  refine ⟨L', hrun, ?_⟩
+  have hf : ∀ (l : List (String × List String)), (∀ p ∈ l, p ∈ ci.idents) → ∀ s,
+      (l.map (fun p => [V.str p.1])).foldl (fun s r => match r with
+        | [.str n] => (match ci.idents.lookup n with | some as => uStepFn w.val x s (n, as) | none => s)
+        | _ => s) s = l.foldl (uStepFn w.val x) s := by
+    intro l
+    induction l with
+    | nil => intro _ s; rfl
+    | cons p rest ih =>
+      intro hsub s
+      simp only [List.map_cons, List.foldl_cons, lookup_nodup ci.idents p hnd (hsub p (List.mem_cons_self ..))]
+      exact ih (fun q hq => hsub q (List.mem_cons_of_mem _ hq)) _
+  rw [hf _ (fun p hp => hp)] at hinv
+  have hs : s = (s.1, s.2) := rfl
+  rw [hs, uStep_shift, ← uniqStep_fold] at hinv
+  exact hinv
+
+theorem isNull_gen (v : Option Int) (isUid : Bool) : Pyx.Gen.CheckCond.isNull v isUid = isNull v isUid := by
+  unfold Pyx.Gen.CheckCond.isNull isNull
+  cases v with
+  | none => simp
+  | some x =>
+    cases isUid <;> simp
+    by_cases hx : x = 0 <;> simp [hx]
+
+def nullBody : List Stmt :=
+  match uniqBodyInst with
+  | [.forIn _ _ b, _] => b
+  | _ => []
+
+def nullTerm (w : World) (ci : ClassInfo) (x : Inst) (a : String × Bool) : Nat :=
+  if (ci.identifying.map up).contains (up a.1) && isNull (w.val x a.1) a.2 then 1 else 0
+
+theorem null_body (w : World) (ci : ClassInfo) (x : Inst) (im : V) (L0 : Locals) (h0 : L0.lookup "inst" = some (.inst x))
+    (hid : L0.lookup "identifying" = some (.strSet (ci.identifying.map up))) (a : String × Bool) (r : Nat) (L : Locals)
+    (hi : Frame A1 L0 L ∧ L.lookup "res" = some (.nat r) ∧ L.lookup "id_map" = some im) :
+    ∃ L', ((match bindRow ["name", "ty"] [V.str a.1, V.bool a.2] L with
+        | some L'' => iStmts w (oracle w) L'' nullBody
+        | none => none) = some (L', .next) ∨
+        (match bindRow ["name", "ty"] [V.str a.1, V.bool a.2] L with
+        | some L'' => iStmts w (oracle w) L'' nullBody
+        | none => none) = some (L', .cont)) ∧
+      (Frame A1 L0 L' ∧ L'.lookup "res" = some (.nat (r + nullTerm w ci x a)) ∧ L'.lookup "id_map" = some im) := by
+  have hinst : L.lookup "inst" = some (.inst x) := (hi.1 "inst" (by decide)).trans h0
+  have hidf : L.lookup "identifying" = some (.strSet (ci.identifying.map up)) := (hi.1 "identifying" (by decide)).trans hid
+  simp only [nullBody, uniqBodyInst, check_uniqueness_constraint, nullTerm]
+  by_cases hc : (ci.identifying.map up).contains (up a.1) = true
+  · by_cases hn : isNull (w.val x a.1) a.2 = true
+    · cshape [hinst, hidf, hc, hn, isNull_gen, hi.2.1, Bool.not_true, Bool.false_eq_true, Bool.and_self]
+      refine ⟨_, Or.inl rfl, ?_, by simp [List.lookup], by simp only [List.lookup, String.reduceBEq]; exact hi.2.2⟩
+      exact Frame.push _ (by decide) (Frame.push _ (by decide) (Frame.push _ (by decide) (Frame.push _ (by decide)
+        (Frame.push _ (by decide) hi.1))))
+    · have hn' := Bool.eq_false_iff.mpr hn
+      cshape [hinst, hidf, hc, hn', isNull_gen, Bool.not_true, Bool.false_eq_true, Bool.and_false, Nat.add_zero]
+      refine ⟨_, Or.inl rfl, ?_, by simp only [List.lookup, String.reduceBEq]; exact hi.2.1,
+        by simp only [List.lookup, String.reduceBEq]; exact hi.2.2⟩
+      exact Frame.push _ (by decide) (Frame.push _ (by decide) (Frame.push _ (by decide) (Frame.push _ (by decide) hi.1)))
+  · have hc' := Bool.eq_false_iff.mpr hc
+    cshape [hinst, hidf, hc', Bool.not_false, Bool.false_and, Bool.false_eq_true, Nat.add_zero]
+    refine ⟨_, Or.inr rfl, ?_, by simp only [List.lookup, String.reduceBEq]; exact hi.2.1,
+      by simp only [List.lookup, String.reduceBEq]; exact hi.2.2⟩
+    exact Frame.push _ (by decide) (Frame.push _ (by decide) hi.1)
+
+theorem null_fold (w : World) (ci : ClassInfo) (x : Inst)
+    (hcase : ∀ a ∈ ci.attrs, (ci.identifying.map up).contains (up a.1) = ci.identifying.contains a.1) :
+    ∀ (l : List (String × Bool)), (∀ a ∈ l, a ∈ ci.attrs) → ∀ r,
+      (l.map (fun a => [V.str a.1, V.bool a.2])).foldl (fun r row => match row with
+        | [.str n, .bool b] => r + nullTerm w ci x (n, b) | _ => r) r =
+      r + ((l.filter (fun a => ci.identifying.contains a.1)).countP (fun a => isNull (w.val x a.1) a.2))
+  | [], _, r => by simp
+  | a :: rest, hsub, r => by
+    simp only [List.map_cons, List.foldl_cons]
+    rw [null_fold w ci x hcase rest (fun b hb => hsub b (List.mem_cons_of_mem _ hb))]
+    simp only [nullTerm, hcase a (hsub a (List.mem_cons_self ..)), List.filter_cons]
+    cases h1 : ci.identifying.contains a.1 <;> cases h2 : isNull (w.val x a.1) a.2 <;>
+      simp [h1, h2, List.countP_cons] <;> omega
+
+theorem null_loop (w : World) (ci : ClassInfo) (x : Inst) (im : V) (L0 : Locals) (h0 : L0.lookup "inst" = some (.inst x))
+    (hid : L0.lookup "identifying" = some (.strSet (ci.identifying.map up)))
+    (hcase : ∀ a ∈ ci.attrs, (ci.identifying.map up).contains (up a.1) = ci.identifying.contains a.1)
+    (r : Nat) (L : Locals) (hi : Frame A1 L0 L ∧ L.lookup "res" = some (.nat r) ∧ L.lookup "id_map" = some im) :
+    ∃ L', forLoop (fun row L' => match bindRow ["name", "ty"] row L' with
+        | some L'' => iStmts w (oracle w) L'' nullBody
+        | none => none) (ci.attrs.map (fun a => [V.str a.1, V.bool a.2])) L = some (L', .next) ∧
+      Frame A1 L0 L' ∧ L'.lookup "res" = some (.nat (r + nullCount ci w.val x)) ∧ L'.lookup "id_map" = some im := by
+  obtain ⟨L', hrun, hinv⟩ := forLoop_fold
+    (fun (r : Nat) L => Frame A1 L0 L ∧ L.lookup "res" = some (.nat r) ∧ L.lookup "id_map" = some im)
+    (fun row r => match row with | [.str n, .bool b] => r + nullTerm w ci x (n, b) | _ => r)
+    (fun row L' => match bindRow ["name", "ty"] row L' with
+        | some L'' => iStmts w (oracle w) L'' nullBody
+        | none => none) (ci.attrs.map (fun a => [V.str a.1, V.bool a.2]))
+    (by
+      intro row hr r L hi
+      obtain ⟨a, _, rfl⟩ := List.mem_map.mp hr
+      exact null_body w ci x im L0 h0 hid a r L hi) r L hi
+  refine ⟨L', hrun, ?_⟩
+  rw [null_fold w ci x hcase ci.attrs (fun a ha => ha)] at hinv
+  exact hinv
+
+def A2 : List String := "inst" :: A1
+
+def iStepFn (ci : ClassInfo) (val : Inst → String → Option Int) (s : Nat × List (String × Key)) (x : Inst) :
+    Nat × List (String × Key) :=
+  (s.1 + nullCount ci val x + (uniqStep ci val x s.2).1, (uniqStep ci val x s.2).2)
+
+theorem inst_body (w : World) (k : Kind) (ci : ClassInfo) (hk : w.classes[k]? = some ci) (hnd : (ci.idents.map (·.1)).Nodup)
+    (hcase : ∀ a ∈ ci.attrs, (ci.identifying.map up).contains (up a.1) = ci.identifying.contains a.1)
+    (L0 : Locals) (hm : L0.lookup "metaclass" = some (.cls k))
+    (hid : L0.lookup "identifying" = some (.strSet (ci.identifying.map up)))
+    (x : Inst) (s : Nat × List (String × Key)) (L : Locals)
+    (hi : Frame A2 L0 L ∧ L.lookup "res" = some (.nat s.1) ∧ L.lookup "id_map" = some (imV (ci.idents.map (·.1)) s.2)) :
+    ∃ L', ((match bindRow ["inst"] [V.inst x] L with
+        | some L'' => iStmts w (oracle w) L'' uniqBodyInst
+        | none => none) = some (L', .next) ∨ False) ∧
+      (Frame A2 L0 L' ∧ L'.lookup "res" = some (.nat (iStepFn ci w.val s x).1) ∧
+        L'.lookup "id_map" = some (imV (ci.idents.map (·.1)) (iStepFn ci w.val s x).2)) := by
+  have hb0 : List.lookup "inst" (("inst", V.inst x) :: L) = some (.inst x) := by simp [List.lookup]
+  have hbm : List.lookup "metaclass" (("inst", V.inst x) :: L) = some (.cls k) := by
+    simp only [List.lookup, String.reduceBEq]; exact (hi.1 "metaclass" (by decide)).trans hm
+  have hbi : List.lookup "identifying" (("inst", V.inst x) :: L) = some (.strSet (ci.identifying.map up)) := by
+    simp only [List.lookup, String.reduceBEq]; exact (hi.1 "identifying" (by decide)).trans hid
+  obtain ⟨L1, hrun1, hf1, hr1, him1⟩ := null_loop w ci x (imV (ci.idents.map (·.1)) s.2) (("inst", V.inst x) :: L) hb0 hbi hcase
+    s.1 (("inst", V.inst x) :: L)
+    ⟨Frame.refl _ _, by simp only [List.lookup, String.reduceBEq]; exact hi.2.1,
+      by simp only [List.lookup, String.reduceBEq]; exact hi.2.2⟩
+  obtain ⟨L2, hrun2, hf2, hr2, him2⟩ := ident_loop w k ci hk hnd x (("inst", V.inst x) :: L) hb0 hbm
+    (s.1 + nullCount ci w.val x, s.2) L1 ⟨hf1, hr1, him1⟩
+  simp only [nullBody, uniqBodyInst, check_uniqueness_constraint] at hrun1
+  simp only [identBody, uniqBodyInst, check_uniqueness_constraint] at hrun2
+  have hm1 : L1.lookup "metaclass" = some (.cls k) := (hf1 "metaclass" (by decide)).trans hbm
+  simp only [uniqBodyInst, check_uniqueness_constraint, bindRow]
+  have hLm : L.lookup "metaclass" = some (.cls k) := (hi.1 "metaclass" (by decide)).trans hm
+  rw [iStmts_for (rows := ci.attrs.map (fun a => [V.str a.1, V.bool a.2])) (by cshape [hLm, hk]) hrun1]
+  rw [iStmts_for (rows := ci.idents.map (fun p => [V.str p.1])) (by cshape [hm1, hk]) hrun2]
+  refine ⟨L2, Or.inl (by simp only [iStmts]), ?_, hr2, him2⟩
+  exact Frame.trans (Frame.push _ (by decide) hi.1) (Frame.mono (by decide) hf2)
+
+theorem iStep_fold (ci : ClassInfo) (val : Inst → String → Option Int) : ∀ (pool : List Inst) (s : Nat × List (String × Key)),
+    (pool.foldl (iStepFn ci val) s).1 = s.1 + uniqLoop ci val pool s.2
+  | [], s => by simp [uniqLoop]
+  | x :: xs, s => by
+    simp only [List.foldl_cons, iStep_fold ci val xs, iStepFn, uniqLoop]
+    omega
+
+theorem inst_loop (w : World) (k : Kind) (ci : ClassInfo) (hk : w.classes[k]? = some ci) (hnd : (ci.idents.map (·.1)).Nodup)
+    (hcase : ∀ a ∈ ci.attrs, (ci.identifying.map up).contains (up a.1) = ci.identifying.contains a.1)
+    (L0 : Locals) (hm : L0.lookup "metaclass" = some (.cls k))
+    (hid : L0.lookup "identifying" = some (.strSet (ci.identifying.map up)))
+    (pool : List Inst) (s : Nat × List (String × Key)) (L : Locals)
+    (hi : Frame A2 L0 L ∧ L.lookup "res" = some (.nat s.1) ∧ L.lookup "id_map" = some (imV (ci.idents.map (·.1)) s.2)) :
+    ∃ L', forLoop (fun r L' => match bindRow ["inst"] r L' with
+        | some L'' => iStmts w (oracle w) L'' uniqBodyInst
+        | none => none) (pool.map (fun x => [V.inst x])) L = some (L', .next) ∧
+      Frame A2 L0 L' ∧ L'.lookup "res" = some (.nat (s.1 + uniqLoop ci w.val pool s.2)) := by
+  obtain ⟨L', hrun, hinv⟩ := forLoop_fold
+    (fun (s : Nat × List (String × Key)) L => Frame A2 L0 L ∧ L.lookup "res" = some (.nat s.1) ∧
+      L.lookup "id_map" = some (imV (ci.idents.map (·.1)) s.2))
+    (fun r s => match r with | [.inst x] => iStepFn ci w.val s x | _ => s)
+    (fun r L' => match bindRow ["inst"] r L' with
+        | some L'' => iStmts w (oracle w) L'' uniqBodyInst
+        | none => none) (pool.map (fun x => [V.inst x]))
+    (by
+      intro r hr s L hi
+      obtain ⟨x, _, rfl⟩ := List.mem_map.mp hr
+      obtain ⟨L', h, hi'⟩ := inst_body w k ci hk hnd hcase L0 hm hid x s L hi
+      exact ⟨L', Or.inl (h.resolve_right id), hi'⟩) s L hi
+  refine ⟨L', hrun, hinv.1, ?_⟩
+  have hf : ∀ (l : List Inst) s, (l.map (fun x => [V.inst x])).foldl (fun s r => match r with
+      | [.inst x] => iStepFn ci w.val s x | _ => s) s = l.foldl (iStepFn ci w.val) s := by
+    intro l
+    induction l with
+    | nil => intro s; rfl
+    | cons x rest ih => intro s; simp only [List.map_cons, List.foldl_cons, ih]
+  rw [hf, iStep_fold] at hinv
+  exact hinv.2.1
+
+def A3 : List String := "metaclass" :: "identifying" :: A2
+
+def classBody : List Stmt :=
+  match check_uniqueness_constraint.body with
+  | [_, _, .forIn _ _ b, _] => b
+  | _ => []
+
+def initBody : List Stmt :=
+  match classBody with
+  | [_, .forIn _ _ b, _, _] => b
+  | _ => []
+
+theorem init_loop (w : World) (r : Nat) (L0 : Locals) : ∀ (names : List String) (inits : List String) (L : Locals),
+    (Frame A1 L0 L ∧ L.lookup "res" = some (.nat r) ∧ L.lookup "id_map" = some (imV inits [])) →
+    ∃ L', forLoop (fun row L' => match bindRow ["identifier"] row L' with
+        | some L'' => iStmts w (oracle w) L'' initBody
+        | none => none) (names.map (fun n => [V.str n])) L = some (L', .next) ∧
+      Frame A1 L0 L' ∧ L'.lookup "res" = some (.nat r) ∧ L'.lookup "id_map" = some (imV (inits ++ names) [])
+  | [], inits, L, hi => ⟨L, rfl, by simpa using hi⟩
+  | n :: rest, inits, L, hi => by
+    have hstep : ∃ L1, (match bindRow ["identifier"] [V.str n] L with
+        | some L'' => iStmts w (oracle w) L'' initBody
+        | none => none) = some (L1, .next) ∧
+        Frame A1 L0 L1 ∧ L1.lookup "res" = some (.nat r) ∧ L1.lookup "id_map" = some (imV (inits ++ [n]) []) := by
+      simp only [initBody, classBody, check_uniqueness_constraint]
+      cases inits with
+      | nil =>
+        cshape [hi.2.2, imV]
+        exact ⟨_, rfl, Frame.push _ (by decide) (Frame.push _ (by decide) hi.1),
+          by simp only [List.lookup, String.reduceBEq]; exact hi.2.1, by simp [List.lookup, imV]⟩
+      | cons q qs =>
+        cshape [hi.2.2, imV]
+        exact ⟨_, rfl, Frame.push _ (by decide) (Frame.push _ (by decide) hi.1),
+          by simp only [List.lookup, String.reduceBEq]; exact hi.2.1, by simp [List.lookup, imV]⟩
+    obtain ⟨L1, h1, hi1⟩ := hstep
+    obtain ⟨L2, h2, hi2⟩ := init_loop w r L0 rest (inits ++ [n]) L1 hi1
+    refine ⟨L2, ?_, ?_⟩
+    · simp only [List.map_cons, forLoop, h1, h2]
+    · simpa [List.append_assoc] using hi2
+
+def UniqOK (ci : ClassInfo) : Prop :=
+  (ci.idents.map (·.1)).Nodup ∧ ∀ a ∈ ci.attrs, (ci.identifying.map up).contains (up a.1) = ci.identifying.contains a.1
+
+theorem class_body (w : World) (k : Kind) (ci : ClassInfo) (hk : w.classes[k]? = some ci) (hok : UniqOK ci)
+    (L0 : Locals) (r : Nat) (L : Locals) (hi : Frame A3 L0 L ∧ L.lookup "res" = some (.nat r)) :
+    ∃ L', ((match bindRow ["metaclass"] [V.cls k] L with
+        | some L'' => iStmts w (oracle w) L'' classBody
+        | none => none) = some (L', .next) ∨ False) ∧
+      (Frame A3 L0 L' ∧ L'.lookup "res" = some (.nat (r + checkUniqClass w k))) := by
+  obtain ⟨L1, hrun1, hf1, hr1, him1⟩ := init_loop w r (("id_map", .emptyDict) :: ("metaclass", .cls k) :: L)
+    (ci.idents.map (·.1)) [] (("id_map", .emptyDict) :: ("metaclass", .cls k) :: L)
+    ⟨Frame.refl _ _, by simp only [List.lookup, String.reduceBEq]; exact hi.2, by simp [List.lookup, imV]⟩
+  have hm1 : L1.lookup "metaclass" = some (.cls k) := by rw [hf1 "metaclass" (by decide)]; simp [List.lookup]
+  obtain ⟨L2, hrun2, hf2, hr2⟩ := inst_loop w k ci hk hok.1 hok.2
+    (("identifying", .strSet (ci.identifying.map up)) :: L1)
+    (by simp only [List.lookup, String.reduceBEq]; exact hm1) (by simp [List.lookup]) (w.pool k) (r, [])
+    (("identifying", .strSet (ci.identifying.map up)) :: L1)
+    ⟨Frame.refl _ _, by simp only [List.lookup, String.reduceBEq]; exact hr1,
+      by simp only [List.lookup, String.reduceBEq]; simpa using him1⟩
+  simp only [initBody, classBody, check_uniqueness_constraint, List.map_map, Function.comp_def] at hrun1
+  simp only [uniqBodyInst, check_uniqueness_constraint] at hrun2
+  simp only [classBody, check_uniqueness_constraint, bindRow]
+  rw [iStmts_step (L' := ("id_map", .emptyDict) :: ("metaclass", .cls k) :: L) (by cshape [])]
+  rw [iStmts_for (rows := ci.idents.map (fun p => [V.str p.1])) (by cshape [hk]) hrun1]
+  rw [iStmts_step (L' := ("identifying", .strSet (ci.identifying.map up)) :: L1) (by cshape [hm1, hk])]
+  rw [iStmts_for (rows := (w.pool k).map (fun x => [V.inst x])) (by cshape [hm1]) hrun2]
+  refine ⟨L2, Or.inl (by simp only [iStmts]), ?_, ?_⟩
+  · refine Frame.trans (Frame.trans (Frame.push _ (by decide) (Frame.push _ (by decide) hi.1)) (Frame.mono (by decide) hf1)) ?_
+    exact Frame.trans (Frame.push _ (by decide) (Frame.refl _ _)) (Frame.mono (by decide) hf2)
+  · simp only [checkUniqClass, hk]; exact hr2
+
+def kindV : Option Kind → V
+  | some k => .cls k
+  | none => .none
+
+theorem class_loop (w : World) (hok : ∀ ci ∈ w.classes, UniqOK ci) (ks : List Kind) (hks : ∀ k ∈ ks, k < w.classes.length)
+    (L : Locals) (hi : L.lookup "res" = some (.nat 0)) :
+    ∃ L', forLoop (fun r L' => match bindRow ["metaclass"] r L' with
+        | some L'' => iStmts w (oracle w) L'' classBody
+        | none => none) (ks.map (fun k => [V.cls k])) L = some (L', .next) ∧
+      L'.lookup "res" = some (.nat ((ks.map (checkUniqClass w)).sum)) := by
+  obtain ⟨L', hrun, hinv⟩ := forLoop_fold
+    (fun (r : Nat) L' => Frame A3 L L' ∧ L'.lookup "res" = some (.nat r))
+    (fun r n => match r with | [.cls k] => n + checkUniqClass w k | _ => n)
+    (fun r L' => match bindRow ["metaclass"] r L' with
+        | some L'' => iStmts w (oracle w) L'' classBody
+        | none => none) (ks.map (fun k => [V.cls k]))
+    (by
+      intro r hr n L1 hi1
+      obtain ⟨k, hkm, rfl⟩ := List.mem_map.mp hr
+      have hlt := hks k hkm
+      have hk : w.classes[k]? = some w.classes[k] := List.getElem?_eq_getElem hlt
+      obtain ⟨L', h, hi'⟩ := class_body w k _ hk (hok _ (List.getElem_mem hlt)) L n L1 hi1
+      exact ⟨L', Or.inl (h.resolve_right id), hi'⟩) 0 L ⟨Frame.refl _ _, hi⟩
+  refine ⟨L', hrun, ?_⟩
+  have hf : ∀ (l : List Kind) (n : Nat), (l.map (fun k => [V.cls k])).foldl (fun n r => match r with
+      | [.cls k] => n + checkUniqClass w k | _ => n) n = n + (l.map (checkUniqClass w)).sum := by
+    intro l
+    induction l with
+    | nil => intro n; simp
+    | cons k rest ih => intro n; simp only [List.map_cons, List.foldl_cons, ih, List.sum_cons]; omega
+  rw [hf] at hinv
+  simpa using hinv.2
+
+/-- check_uniqueness_constraint = checkUniq, for every world whose classes satisfy `UniqOK` -/
+theorem check_uniqueness_eq (w : World) (kind : Option Kind) (hk : ∀ k, kind = some k → k < w.classes.length)
+    (hok : ∀ ci ∈ w.classes, UniqOK ci) :
+    interp w check_uniqueness_constraint [.model, kindV kind] = some (.nat (checkUniq w kind)) := by
+  cases kind with
+  | none =>
+    obtain ⟨L', hrun, hres⟩ := class_loop w hok (List.range w.classes.length) (fun k hk => List.mem_range.mp hk)
+      [("res", .nat 0), ("metaclasses", .clss (List.range w.classes.length)), ("m", .model), ("kind", .none)]
+      (by simp [List.lookup])
+    simp only [classBody, check_uniqueness_constraint] at hrun
+    simp only [interp, run, check_uniqueness_constraint, bindParams, Option.map_some, kindV]
+    rw [iStmts_step (L' := [("metaclasses", .clss (List.range w.classes.length)), ("m", .model), ("kind", .none)]) (by cshape [])]
+    rw [iStmts_step (L' := [("res", .nat 0), ("metaclasses", .clss (List.range w.classes.length)), ("m", .model), ("kind", .none)])
+      (by cshape [])]
+    rw [iStmts_for (rows := (List.range w.classes.length).map (fun k => [V.cls k])) (by cshape []) hrun]
+    simp only [iStmts, iStmt, hres]
+    rfl
+  | some k =>
+    obtain ⟨L', hrun, hres⟩ := class_loop w hok [k] (by intro j hj; simp only [List.mem_singleton] at hj; subst hj; exact hk _ rfl)
+      [("res", .nat 0), ("metaclasses", .clss [k]), ("m", .model), ("kind", .cls k)]
+      (by simp [List.lookup])
+    simp only [classBody, check_uniqueness_constraint] at hrun
+    simp only [interp, run, check_uniqueness_constraint, bindParams, Option.map_some, kindV]
+    rw [iStmts_step (L' := [("metaclasses", .clss [k]), ("m", .model), ("kind", .cls k)]) (by cshape [])]
+    rw [iStmts_step (L' := [("res", .nat 0), ("metaclasses", .clss [k]), ("m", .model), ("kind", .cls k)]) (by cshape [])]
+    rw [iStmts_for (rows := [k].map (fun k => [V.cls k])) (by cshape []) hrun]
+    simp only [iStmts, iStmt, hres]
+    simp [checkUniq]
+
 end Pyx.CShape
